@@ -47,3 +47,7 @@ func (fio *FileIO) Size() (int64, error) {
 	}
 	return stat.Size(), nil
 }
+
+func (fio *FileIO) Truncate(size int64) error {
+	return fio.fd.Truncate(size)
+}
